@@ -98,8 +98,9 @@ module.exports = function (repo, loadPrelude) {
       if (c === 'v') return ifaceVal(p.slice(2, -1));
       if (c === 'f') return p === 'fN' ? NaN : Number(p.slice(1));
       if (c === 'c') { const q = p.slice(1).split('_').map(x => x === 'N' ? NaN : Number(x)); return new t(q[0], q[1]); }
-      if (c === 'w') { // w<k>[val]: ONE boxed interface value per key k, shared by every occurrence within the operation
-        const i = p.indexOf('['); const key = p.slice(1, i);
+      if (c === 'w') { // w<k>[val]: ONE boxed interface value per (k, val), shared by every occurrence of the same token within
+        // the operation (the generator may draw the same k with two different payloads: those are two values)
+        const i = p.indexOf('['); const key = p;
         if (!(key in shared)) shared[key] = ifaceVal(p.slice(i + 1, -1));
         return shared[key];
       }
